@@ -357,6 +357,109 @@ def run_files(chk, n, stats):
                       "different trees from the reader's lines", "text": cases[idx][0], "impl": cases[idx][1]}, False)
 
 
+# ------------------------------------------------------------------ type-bound procedures: attributes, spelling equivalence
+# Sem/Tree.v carries a binding's name and documentation only; its attributes (FortranBoundProcedure.attribs /
+# .deferred / .permission / .proto / .bindings) are checked here, in the harness: a binding statement with several
+# names must give every binding exactly what the one-name-per-statement spelling gives it, and what was declared.
+BIND_FORCED = [
+    (True, None, "procedure(measure), deferred, public :: ", ["area", "perimeter"], "measure", ["deferred", "public"]),
+    (False, None, "procedure, nopass :: ", ["unit_name", "version"], None, ["nopass"]),
+    (False, None, "procedure, private, pass(this) :: ", ["rescale", "reset"], None, ["private", "pass(this)"]),
+    (False, "private", "procedure, public, non_overridable :: ", ["a => a_impl", "b", "c => c_impl"], None,
+     ["public", "non_overridable"]),
+    (False, None, "PROCEDURE , NoPass , PRIVATE:: ", ["x1", "x2=>impl2"], None, ["nopass", "private"]),
+]
+
+
+def gen_binding(rng):
+    proto = rng.choice([None, None, "measure", "iface_t"])
+    pool = ["nopass", "pass", "pass(this)", "pass( self )", "non_overridable", "public", "private"] + (["deferred"] if proto else [])
+    attrs = rng.sample(pool, rng.choice([1, 1, 2, 3]))
+    if sum(a.startswith(("nopass", "pass")) for a in attrs) > 1:
+        attrs = [a for a in attrs if not a.startswith("pass")]
+    if "public" in attrs and "private" in attrs:
+        attrs.remove("public")
+    if proto and "deferred" not in attrs:
+        attrs.append("deferred")
+    names = rng.sample(["area", "perimeter", "rescale", "reset", "unit_name", "version", "draw", "n2"], rng.choice([2, 2, 3, 4]))
+    if not proto:
+        names = [n + (rng.choice([" => ", "=>", " =>"]) + n + "_impl" if rng.random() < 0.4 else "") for n in names]
+
+    def sp(w):
+        w = w.upper() if rng.random() < 0.2 else (w.capitalize() if rng.random() < 0.15 else w)
+        return w
+    head = sp("procedure") + (f"({proto})" if proto else "") + "".join(rng.choice([", ", ",", " , "]) + sp(a) for a in attrs) \
+        + rng.choice([" :: ", "::", " ::", ":: "])
+    default = rng.choice([None, None, "private"])
+    return (bool(proto), default, head, names, proto, [a.replace(" ", "").lower() for a in attrs])
+
+
+def bindings_of(lines):
+    """the bound procedures FORD records for the type t of a module made of these lines"""
+    import contextlib, io, os, shutil, tempfile
+    import ford.sourceform as sf
+    from ford.settings import ProjectSettings
+    d = tempfile.mkdtemp(prefix="verif_b_")
+    try:
+        with open(os.path.join(d, "b.f90"), "w") as fh:
+            fh.write("\n".join(lines) + "\n")
+        sf.namelist = sf.NameSelector()
+        buf = io.StringIO()
+        try:
+            with contextlib.redirect_stdout(buf), contextlib.redirect_stderr(buf):
+                f = sf.FortranSourceFile(os.path.join(d, "b.f90"), ProjectSettings(preprocess=False, dbg=True), None, False)
+            ty = f.modules[0].types[0]
+            return {b.name.lower(): {"attribs": sorted(str(a).replace(" ", "").lower() for a in b.attribs),
+                                     "deferred": bool(b.deferred), "permission": str(b.permission).lower(),
+                                     "proto": None if not b.proto else str(b.proto).lower(),
+                                     "bindings": [str(x).lower() for x in b.bindings], "generic": bool(b.generic)}
+                    for b in ty.boundprocs}
+        except BaseException as e:  # noqa
+            if isinstance(e, (KeyboardInterrupt, SystemExit)) or type(e).__name__ == "Timeout":
+                raise
+            return {"<error>": type(e).__name__}
+    finally:
+        shutil.rmtree(d, ignore_errors=True)
+
+
+def binding_texts(case):
+    abstract, default, head, names, proto, attrs = case
+    top = ["module m", "type, abstract :: t" if abstract else "type :: t", "integer :: i", "contains"] + ([default] if default else [])
+    bottom = ["end type t", "end module m"]
+    return top + [head + ", ".join(names)] + bottom, top + [head + n for n in names] + bottom
+
+
+def judge_binding(case):
+    """None, or what differs"""
+    abstract, default, head, names, proto, attrs = case
+    multi, single = binding_texts(case)
+    a, b = bindings_of(multi), bindings_of(single)
+    if a != b:
+        return {"what": "the bindings of a statement with several names differ from the bindings of the same statement "
+                "written once per name", "several_names": multi[-3], "ford_several": a, "ford_one_each": b}
+    perm = "public" if "public" in attrs else "private" if "private" in attrs else (default or "public")
+    other = sorted(x for x in attrs if x not in ("public", "private", "deferred"))
+    for n in names:
+        nm = n.split("=>")[0].strip().lower()
+        got = a.get(nm)
+        if got is None or got["permission"] != perm or got["deferred"] != ("deferred" in attrs) \
+           or [x for x in got["attribs"] if x != "deferred"] != other or got["proto"] != (proto.lower() if proto else None):
+            return {"what": "a type-bound procedure is reported with other attributes than declared", "statement": multi[-3],
+                    "binding": nm, "declared": {"permission": perm, "deferred": "deferred" in attrs, "attribs": other, "proto": proto},
+                    "ford": got if got is not None else a}
+    return None
+
+
+def run_bindings(chk, n):
+    cases = list(BIND_FORCED) + [gen_binding(chk.rng) for _ in range(n)]
+    for case in cases:
+        chk.count(("binding", case[2], tuple(case[3])), nontrivial=True, sample=None)
+        bad = judge_binding(case)
+        if bad:
+            chk.violation("failing-input", dict(bad, binding_case=list(case)), True)
+    chk.traces += len(cases)
+
+
 def run_part(chk, explore=False):
     """everything except chk.translate / chk.build / chk.props"""
     rng = chk.rng
@@ -367,6 +470,7 @@ def run_part(chk, explore=False):
         witnesses(chk, P)
         run_slines(chk, P, 260 if quick else 8000, stats, explore)
         run_files(chk, 24 if quick else 1500, stats)
+        run_bindings(chk, 40 if quick else 1500)
         items = []
         fixed = [("KModule", False, 0), ("KType", True, 0), ("KInterface", False, 0), ("KFile", False, 0)]
         for line in CORPUS:
@@ -409,6 +513,10 @@ def run_part(chk, explore=False):
 
 def replay_part(chk, rep):
     """replay of a violation recorded by run_part; None when the replay file is not one of this part's"""
+    if "binding_case" in rep:
+        bad = judge_binding(tuple(rep["binding_case"]))
+        print("binding statement:", json.dumps(bad))
+        return 1 if bad else 0
     if "line" not in rep or "ctx" not in rep:
         return None
     P = I.Prober()
